@@ -16,7 +16,7 @@ logging.getLogger('Inference').setLevel(logging.ERROR)
 
 REG = Registry(
     'C09',
-    rule=('random spectra of 1-5 dimensions (sample sizes 1-8 per axis, odd and even totals), random masks with and without '
+    rule=('random spectra of 1-5 dimensions (sample sizes 1-8 per axis, odd and even totals; in 2% of the fold / unfold / misidentification cases one axis of 255-70001 entries), random masks with and without '
           'masked corners, optional labels; p in [0,1]; all binary / reflected / in-place operators. Non-trivial = dimension>=2 '
           'or an interior masked entry or an even total (ambiguous entries exist). Distinct by hash of the case.'),
     assumptions=['oracle: explicit numpy.ndindex loops in harness/refs/folding.py',
@@ -29,6 +29,7 @@ def fs_case(**kw):
     kw.setdefault('max_n', 8)
     kw.setdefault('max_entries', 700)
     kw.setdefault('folded', False)
+    kw.setdefault('long_axis', 2)      # 2% of the cases: one axis of 255-70001 entries
     return gens.spectrum_case(**kw)
 
 
@@ -39,7 +40,8 @@ def _nontrivial(c):
 
 def _labels(c):
     ns = [s - 1 for s in c['shape']]
-    return ['dim=%d' % len(ns), 'N even' if sum(ns) % 2 == 0 else 'N odd', 'masked' if any(c['mask'][1:-1]) else 'nomask']
+    return ['dim=%d' % len(ns), 'N even' if sum(ns) % 2 == 0 else 'N odd', 'masked' if any(c['mask'][1:-1]) else 'nomask'] + \
+        (['axis > 255 entries'] if max(ns) >= 255 else [])
 
 
 @REG.relation('R1-fold-oracle', strategy=fs_case, quick=(3000, 8), thorough=(40000, 16))
@@ -159,7 +161,7 @@ IOPS = [('iadd', operator.iadd), ('isub', operator.isub), ('imul', operator.imul
 
 @st.composite
 def arith_case(draw):
-    a = draw(fs_case(max_dim=3, folded=None, values='positive'))
+    a = draw(fs_case(max_dim=3, folded=None, values='positive', long_axis=0))
     n = len(a['data'])
     b_data = draw(st.lists(st.floats(0.5, 4.0), min_size=n, max_size=n))
     b_mask = [1 if v < 20 else 0 for v in draw(st.lists(st.integers(0, 99), min_size=n, max_size=n))]
@@ -228,7 +230,7 @@ def r5(case, rec):
 
 @st.composite
 def mixfold_case(draw):
-    a = draw(fs_case(max_dim=3, folded=False, values='positive'))
+    a = draw(fs_case(max_dim=3, folded=False, values='positive', long_axis=0))
     return dict(a=a, op=draw(st.integers(0, len(BINOPS) - 1)), form=draw(st.sampled_from(['binary', 'reflected', 'inplace'])),
                 folded_first=draw(st.booleans()))
 
@@ -260,13 +262,13 @@ def r6(case, rec):
 
 @st.composite
 def slice_case(draw):
-    a = draw(fs_case(max_dim=3, folded=None, min_n=2))
+    a = draw(fs_case(max_dim=3, folded=None, min_n=2, long_axis=0))
     sl = []
     for s in a['shape']:
         lo = draw(st.integers(0, s - 1))
         hi = draw(st.integers(lo + 1, s))
         sl.append([lo, hi, draw(st.sampled_from([1, 1, 2]))])
-    b = draw(fs_case(min_dim=len(a['shape']), max_dim=len(a['shape']), values='positive'))
+    b = draw(fs_case(min_dim=len(a['shape']), max_dim=len(a['shape']), values='positive', long_axis=0))
     return dict(a=a, sl=sl, seed=draw(st.integers(0, 2 ** 20)))
 
 
